@@ -15,6 +15,28 @@ def prop(pid, implemented, text, note, technique, level="other", reason=""):
 
 exec(open(os.path.join(V, "scripts", "manifest_table.py")).read())
 
+# clauses decided by rules added after the second round of seeded changes (DESIGN.md 8.6)
+EXTRA = {
+ "C02": " The routing decision function (R03.1/R03.2, shared with C03) is also an obligation here: the destination selected is never an empty per-level list while the documented routing names another.",
+ "C04": " Value fidelity (R04.8): every float is rendered with precision -1 and the bit size of its own static type, every integer in base 10 and every time VALUE with a constant nanosecond layout with zone, the parameters being resolved to constants over all call chains.",
+ "C05": " Value fidelity as R04.8 in logfmt mode (R05.8); the de-duplication of a member list merges two attributes only when their Key() strings are equal (R05.9).",
+ "C06": " The alphabet of the Go-syntax quoter behind every quoted value (R05.3, shared with C05) is also an obligation here.",
+ "C07": " The name a context value is stored under is a term over the very key it was looked up with (R07.5 pairing).",
+ "C08": " In each output mode no field of the pooled encoder is read before the current call wrote it (R08.5 = engine E10), and the pool discipline R02.6 is an obligation here: a payload is the record of exactly one call.",
+ "C09": " The pool discipline (R02.6, shared with C02) is also an obligation here: neither the pooled context nor bytes taken from it are used after it went back to the pool.",
+ "C10": " A With... method's child is anonymous or is looked up under a name whose term mentions every parameter of the method (R10.4).",
+ "C11": " WithJSONMode/WithColorMode create a child of their own: anonymous, or named by a term over their arguments (R11.5); the record order per mode (R11.3) replaces the test for one particular branch.",
+ "C12": " No static route from a native entry point to the record printer avoids the function holding the termination step (R12.6).",
+ "C14": " Chains continue above an exported entry point to which another entry point forwards a non-constant message (R14.1); source() extracts the frame of the record's own pc on every path (R14.4); every emission that carries a captured pc carries nothing else (R14.5).",
+ "C15": " Enabled's decision function depends on nothing but membership of the level in the table, and for a table level the answer is the logger's own on every path (R15.2).",
+ "C16": " WriteThru, print and PrintCtx.set hand on / store the very time value they are given, and the timestamp printer prints the stored instant (R16.5).",
+ "C18": " AddKnownPathMapping stores the mapping given on every path and RemoveKnownPathMapping deletes exactly the key given (R18.6).",
+ "C20": " The write budget is decided with a symbolic buffer length, so it holds through any split of the formatter into helpers taking a sub-slice.",
+}
+for k, v in EXTRA.items():
+    if k in P:
+        P[k]["text"] += v
+
 checks, na = [], []
 ids = [json.loads(l)["id"] for l in open(os.path.join(V, "properties.jsonl"))]
 for pid in ids:
@@ -46,7 +68,7 @@ m = {
     },
     "engines": [
         {"name": "loggcheck", "path": "/verif/checker", "serves_properties": [c["property_id"] for c in checks],
-         "kind_free_text": "purpose-built static analyser for hedzr/logg on golang.org/x/tools v0.29.0: go/packages load of the working tree per build configuration, go/ssa (InstantiateGenerics), CHA/VTA call graphs; rule engines: emission model + gate dominance (E1/E2), decision-function extraction over atoms (E3), field/global store frames with provenance (E4), frame accounting (E6), constant table agreement (E7), SSA clone agreement with the standard library (E8), interval/write-budget analysis (E9), pooled-state reset (E10). Nothing under /repo is executed."},
+         "kind_free_text": "purpose-built static analyser for hedzr/logg on golang.org/x/tools v0.29.0: go/packages load of the working tree per build configuration, go/ssa (InstantiateGenerics), CHA/VTA call graphs; rule engines: emission model + gate dominance (E1/E2), decision-function extraction over atoms (E3), field/global store frames with provenance (E4), frame accounting (E6), constant table agreement (E7), SSA clone agreement with the standard library (E8), interval/write-budget analysis (E9), pooled-state reset (E10), interprocedural value terms / effects / call sequences with helper inlining (E11). Unexported identifiers are resolved through /verif/anchors.json (renames are matched structurally). Nothing under /repo is executed."},
     ],
     "checks": checks,
     "not_applicable": na,
